@@ -486,6 +486,7 @@ impl FuChecker {
                 v.push(pos(A, 0, 1000, DAY));
                 v.push(pos(A, 1, 700, 100 * DAY));
                 v.push(pos(B, 0, 3, 365 * DAY));
+                v.push(pos(C, 0, 500, 30 * DAY)); // a third weight holder who never claims in the alphabet
                 v.push(farm_op(fee, C, 0, Some(1), Some(4), ("uusdc", 3000), None));
                 v.push(farm_op(fee, C, 1, Some(2), Some(5), ("lp0", 3000), Some("x")));
                 v.push(FuOp::Advance { secs: DAY });
